@@ -439,4 +439,20 @@ Section C12.
   Proof. intros H. unfold bfk_fresh. apply fresh_rel; [exact (rel_f_zero_lay 1)|exact H]. Qed.
   Lemma bf_rewrite_where t w : sk_all (BFNode XQ) bfn_ok t -> skrel (BFNode XQ) bfnode_bb t (sk_map_where (BFNode XQ) bfn_to_border_box w t).
   Proof. apply skrel_map_where; [exact bfnode_bb_refl|exact bfn_to_border_box_bb]. Qed.
+  (* every subset of the eligible nodes of a fresh tree, the SAME input: the run on the rewritten tree succeeds iff the original does; root
+     outputs and all stored layouts are equal as numbers *)
+  Theorem bf_engine_rewritten_layouts f (t : sk (BFNode XQ)) (w : list nat -> bool) i o t1 :
+    sk_all (BFNode XQ) bfn_ok t -> bf_memo f (bfk_fresh t) i = Some (o, t1) ->
+    exists o' t1',
+      bf_memo f (bfk_fresh (sk_map_where (BFNode XQ) bfn_to_border_box w t)) i = Some (o', t1') /\ output_rel 1 o o' /\
+      Forall2 (flay_rel 1) (lays (BFNode XQ) (FIn XQ) (LayoutOutput XQ) (FLay XQ) t1) (lays (BFNode XQ) (FIn XQ) (LayoutOutput XQ) (FLay XQ) t1').
+  Proof.
+    intros Hall E.
+    pose proof (bf_engine_box_sizing f (bfk_fresh t) (bfk_fresh (sk_map_where (BFNode XQ) bfn_to_border_box w t)) i i
+                  (bf_fresh_bb _ _ (bf_rewrite_where t w Hall)) (fin_rel1_refl i)) as H.
+    rewrite E in H. unfold oprel in H.
+    destruct (bf_memo f (bfk_fresh (sk_map_where (BFNode XQ) bfn_to_border_box w t)) i) as [[o' t1']|]; [|contradiction].
+    destruct H as [Ho Ht1]. cbn [fst snd] in Ho, Ht1. exists o', t1'. split; [reflexivity|]. split; [exact Ho|].
+    apply (trel_lays (BFNode XQ) (FIn XQ) (LayoutOutput XQ) (FLay XQ) bfnode_bb (fin_rel 1) (output_rel 1) (flay_rel 1)). exact Ht1.
+  Qed.
 End C12.
